@@ -283,6 +283,7 @@ func c03RunSet(c *Ctx, s *c03Set, nEnc int) {
 	c03KeygenReused(c, s)
 	c03DecryptReusedReceiver(c, s)
 	c03DerivedObjects(c, s)
+	c03HistoryProbes(c, s)
 	c03Statistics(c, s)
 }
 
